@@ -395,7 +395,39 @@ func verifStream(key string, s *Stream, inv []string) ([]VerifStreamEntry, []str
 // VerifStripe / VerifShard expose the collision structure of a key.
 func (m *MemDb) VerifStripe(key string) int { return m.locks.GetKeyPos(key) }
 func (m *MemDb) VerifShard(key string) int  { return m.db.getKeyPos(key) }
-func (m *MemDb) VerifNumStripes() int       { return len(m.locks.locks) }
+func (m *MemDb) VerifNumStripes() int       { return len(m.verifStripes()) }
+
+// verifStripes lists the key-lock stripes through reflection, so that a change of their
+// representation (a slice of pointers, a slice of atomic pointers filled on first use, ...) does not
+// stop the harness from building; a stripe that does not exist yet is nil.
+func (m *MemDb) verifStripes() []*vsync.RWMutex {
+	v := reflect.ValueOf(m).Elem().FieldByName("locks")
+	for v.IsValid() && (v.Kind() == reflect.Ptr || v.Kind() == reflect.Interface) && !v.IsNil() {
+		v = v.Elem()
+	}
+	if !v.IsValid() || v.Kind() != reflect.Struct {
+		return nil
+	}
+	v = v.FieldByName("locks")
+	if !v.IsValid() || (v.Kind() != reflect.Slice && v.Kind() != reflect.Array) {
+		return nil
+	}
+	want := reflect.TypeOf((*vsync.RWMutex)(nil))
+	out := make([]*vsync.RWMutex, v.Len())
+	for i := range out {
+		e := v.Index(i)
+		switch {
+		case e.Type() == want:
+			out[i] = (*vsync.RWMutex)(e.UnsafePointer())
+		case e.Kind() == reflect.Struct && e.Type().PkgPath() == "sync/atomic" && strings.HasPrefix(e.Type().Name(), "Pointer[") &&
+			e.NumField() > 0 && e.Type().Field(0).Type.Kind() == reflect.Array && e.Type().Field(0).Type.Elem() == want:
+			out[i] = (*vsync.RWMutex)(e.FieldByName("v").UnsafePointer())
+		case e.Type() == want.Elem() && e.CanAddr():
+			out[i] = (*vsync.RWMutex)(e.Addr().UnsafePointer())
+		}
+	}
+	return out
+}
 
 // VerifStripeOf maps a lock object back to its stripe index (-1: not a stripe lock).
 func (m *MemDb) VerifStripeOf(obj any) int {
@@ -403,7 +435,7 @@ func (m *MemDb) VerifStripeOf(obj any) int {
 	if !ok {
 		return -1
 	}
-	for i, l := range m.locks.locks {
+	for i, l := range m.verifStripes() {
 		if l == rw {
 			return i
 		}
@@ -447,8 +479,10 @@ func (m *MemDb) VerifLocksHeld() []string {
 			out = append(out, fmt.Sprintf("%s(r%d)", name, r))
 		}
 	}
-	for i, l := range m.locks.locks {
-		chk(fmt.Sprintf("stripe:%d", i), l)
+	for i, l := range m.verifStripes() {
+		if l != nil {
+			chk(fmt.Sprintf("stripe:%d", i), l)
+		}
 	}
 	for i, sh := range m.db.table {
 		chk(fmt.Sprintf("db:%d", i), sh.rwMu)
